@@ -1070,8 +1070,7 @@ void cev_timed_impl(const mc::Params& P) {
   if (by > 0) mc::spawn([by] {
     for (long i = 0; i < by; i++) mc::point();
   });
-  bool r = timed_wait_event(ev, api, d, notified);
-  if (notif == "before") MC_CHECK(r || d > 0, "harness: unreachable"); // (no demand: documented only as 'whichever is first')
+  (void)timed_wait_event(ev, api, d, notified);
   mc::join_all();
 }
 
